@@ -31,6 +31,9 @@ func init() {
 
 func rulesC13(c *Ctx) {
 	rulePutFresh(c, "C13.PUTFRESH")
+	// a container written twice in one transaction is replaced, not merged: "is it empty" is not asked of bbolt's
+	// page statistics (they do not see the transaction's own writes)
+	ruleNoStats(c, "C13.NOSTATS")
 	ruleC13Width(c)
 	ruleC13Checker(c)
 	ruleC13Nil(c)
